@@ -15,7 +15,6 @@ for d in seeded/*${1:-}*/ seeded/adversarial/*${1:-}*/; do
   name=$(basename "$d")
   # the one adversarial change the technique cannot see (documented): expected to be missed
   if [ "$name" = "C20-shared-decimal-context" ]; then echo "EXPECTED-MISS $name (unsynchronised memory inside FFI calls: outside the simulator's preemption points)"; continue; fi
-  if [ "$name" = "C20-regex-ring-slot-reused-under-the-reader" ]; then echo "EXPECTED-MISS $name (needs the looked-up pattern to be the oldest of 256 live ones when another thread misses: within the schedules, outside the workloads)"; continue; fi
   prop=$(python3 -c "import json,sys; print(json.load(open('$d/meta.json'))['property'])")
   patch=$(ls $d/patch_rebased*.diff 2>/dev/null | tail -1); [ -z "$patch" ] && patch=$d/patch.diff
   if ! git -C "$R" apply "$PWD/$patch" 2>/dev/null; then
